@@ -18,7 +18,7 @@ import random
 from concurrent.futures import ThreadPoolExecutor
 from ..core import Check, MachineryFailure
 from ..stdp_eval import evaluate, delayadj_params
-from .stdp_common import run_tlc, emitted, bits, Mismatch, compare, LN2
+from .stdp_common import run_tlc, emitted, bits, Mismatch, compare, LN2, with_form, syn_hp, per_synapse, multi_cells
 from . import stdp_traces
 
 PID = "C18"
@@ -50,13 +50,18 @@ def expected(tab, rule, xh, yh, t, d, r):
 
 
 def c18_hp(splus, sminus, dt, rng, dyadic):
+    """eta_plus != eta_minus in magnitude and tau_plus != tau_minus, always."""
     if dyadic:
-        amp = lambda: rng.choice([1.0, 0.5, 0.25])      # noqa: E731
-        tc = lambda: (dt / DT) / LN2 * rng.choice([1, 2])    # noqa: E731  (decay per tick 1/2 or 1/sqrt 2)
+        a1, a2 = rng.sample([1.0, 0.5, 0.25], 2)
+        t1, t2 = rng.sample([(dt / DT) / LN2 * k for k in (1, 2, 4)], 2)   # decay per tick 1/2, 2^-1/2, 2^-1/4
     else:
-        amp = lambda: rng.choice([1.0, 0.6, 0.35, 0.8])  # noqa: E731
-        tc = lambda: rng.choice([2.0, 7.3, 20.0])        # noqa: E731
-    return {"lr_pos": splus * amp(), "lr_neg": sminus * amp(), "tc_pos": tc(), "tc_neg": tc()}
+        a1, a2 = rng.sample([1.0, 0.6, 0.35, 0.8], 2)
+        t1, t2 = rng.sample([2.0, 7.3, 20.0], 2)
+    return {"lr_pos": splus * a1, "lr_neg": sminus * a2, "tc_pos": t1, "tc_neg": t2}
+
+
+HPKEYS = ("lr_pos", "lr_neg", "tc_pos", "tc_neg")
+KERNEL = ("k_stdp", "dak_stdp", "dak_stdpd")
 
 
 def matches(alts, P, gp, gn):
@@ -71,7 +76,7 @@ def matches(alts, P, gp, gn):
 
 # ------------------------------------------------------------------ binding A (i): population
 def population(chk, tab, mm, *, variant, splus, sminus, dt, dyadic, shift, T, rng, hp=None, script=None,
-               deviate=None, count=True):
+               deviate=None, count=True, form="float", via="ctor"):
     """Dense n x n cell (n = 2^T) - synapse (o, i): pre history H[i], post history H[o], delay
     (o + 2 i + 3 t + shift) mod (2 DT + 1) ticks at step t (shift None: connection without
     delays; "zero": a delay parameter that is all zeros; KernelSTDP: delay 0).  Returns the per-step (pos, neg) arrays for direct
@@ -83,11 +88,14 @@ def population(chk, tab, mm, *, variant, splus, sminus, dt, dyadic, shift, T, rn
     H = bits(T)
     n = len(H)
     hp = dict(hp or c18_hp(splus, sminus, dt, rng, dyadic))
+    if form == "tsyn" and variant not in KERNEL:
+        form = "t0"            # only kernel keyword arguments can be per-synapse tensors
+    hp = with_form(hp, HPKEYS, form, rng, (n, n))
     if variant == "k_stdp":
-        hp["delayed"] = bool(shift is not None and rng.random() < 0.5)
+        hp["delayed"] = bool(rng.random() < 0.5)     # also "delayed" on a connection without delays
     hdr = {"rule": variant, "hp": hp, "conn": {"kind": "dense", "M": n, "N": n}, "dt": dt, "B": 1,
-           "reduction": rng.choice(["sum", "mean"]), "dmax": None if shift is None else 2, "delay": 0}
-    sig = {"site": "population", "rule": variant, "delays": shift is not None}
+           "reduction": rng.choice(["sum", "mean"]), "dmax": None if shift is None else 2, "delay": 0, "via": via}
+    sig = {"site": "population", "rule": variant, "delays": shift is not None, "form": form, "via": via}
     try:
         run = Run(hdr)
     except Exception as e:
@@ -121,9 +129,12 @@ def population(chk, tab, mm, *, variant, splus, sminus, dt, dyadic, shift, T, rn
             return None
         outs.append((pos, neg))
         val = run.value()
-        P = delayadj_params(dict(hp, scale=st["unit"] * st["scale"]), tick)
+        persyn = per_synapse(hp)
+        P = None if persyn else delayadj_params(dict(hp, scale=st["unit"] * st["scale"]), tick)
         for o in range(n):
             for i in range(n):
+                if persyn:
+                    P = delayadj_params(dict(syn_hp(hp, o, i), scale=st["unit"] * st["scale"]), tick)
                 d = Dk[o][i]
                 dq = (d + 1) % (2 * DT + 1) if deviate == "delay" and rule != "k" else d
                 dw, near = expected(tab, rule, H[i], H[o], t, dq, r)
@@ -180,7 +191,8 @@ def cross(chk, mm, a, b, what):
 
 
 # ------------------------------------------------------------------ binding A (ii): 1x1 cells
-def cell_1x1(chk, tab, mm, *, variant, splus, sminus, dt, dyadic, nodelay, B, reduction, persample, T, rng):
+def cell_1x1(chk, tab, mm, *, variant, splus, sminus, dt, dyadic, nodelay, B, reduction, persample, T, rng,
+             form="float", via="ctor"):
     import torch
     from ..impl_stdp import Run
     rule = SPEC_RULE[variant]
@@ -189,14 +201,16 @@ def cell_1x1(chk, tab, mm, *, variant, splus, sminus, dt, dyadic, nodelay, B, re
         reduction = "sum"
     if rule != "k":
         nodelay = False       # the delay-adjusted rules are defined for connections that have delays
-    hp = c18_hp(splus, sminus, dt, rng, dyadic)
+    if form == "tsyn" and variant not in KERNEL:
+        form = "t0"
+    hp = with_form(c18_hp(splus, sminus, dt, rng, dyadic), HPKEYS, form, rng, (1, 1))
     if variant == "k_stdp":
-        hp["delayed"] = bool(not nodelay and rng.random() < 0.5)
+        hp["delayed"] = bool(rng.random() < 0.5)
     xs = [tuple(rng.randint(0, 1) for _ in range(T)) for _ in range(B)]
     ys = [tuple(rng.randint(0, 1) for _ in range(T)) for _ in range(B)]
     hdr = {"rule": variant, "hp": hp, "conn": {"kind": "dense", "M": 1, "N": 1}, "dt": dt, "B": B,
-           "reduction": reduction, "dmax": None if nodelay else 2, "delay": 0}
-    sig = {"site": "cell-1x1", "rule": variant, "delays": not nodelay}
+           "reduction": reduction, "dmax": None if nodelay else 2, "delay": 0, "via": via}
+    sig = {"site": "cell-1x1", "rule": variant, "delays": not nodelay, "form": form, "via": via}
     try:
         run = Run(hdr)
     except Exception as e:
@@ -226,7 +240,7 @@ def cell_1x1(chk, tab, mm, *, variant, splus, sminus, dt, dyadic, nodelay, B, re
             mm.add(dict(sig, clause="Raised", where="step", exc=type(e).__name__),
                    {"hdr": hdr, "pre": xs, "post": ys, "steps": steps, "t": t, "error": repr(e)})
             return edges
-        P = delayadj_params(dict(hp, scale=unit * scale), tick)
+        P = delayadj_params(dict(syn_hp(hp, 0, 0), scale=unit * scale), tick)
         # admissible totals: one alternative per sample (boundary cases double)
         sums = [(0.0, 0.0)]
         nontriv = False
@@ -260,6 +274,46 @@ def cell_1x1(chk, tab, mm, *, variant, splus, sminus, dt, dyadic, nodelay, B, re
     return edges
 
 
+# ------------------------------------------------------------------ several cells on one trainer
+def cells_on_one_trainer(chk, tab, mm, *, variant, rng, T, guards):
+    rule = SPEC_RULE[variant]
+    three = rule in ("mw", "md")
+    n = 3 if guards else 2
+    dyadic = rng.random() < 0.4
+    hdrs = []
+    for j in range(n):
+        splus, sminus = rng.choice(SIGNS)
+        dt = rng.choice([1.0, 0.5]) if dyadic else rng.choice([1.0, 1.3, 0.7])
+        form = rng.choice(["float", "t0", "mixed", "tsyn"])
+        if form == "tsyn" and variant not in KERNEL:
+            form = "t0"
+        hp = with_form(c18_hp(splus, sminus, dt, rng, dyadic), HPKEYS, form, rng, (1, 1))
+        nodelay = rule == "k" and rng.random() < 0.5
+        if variant == "k_stdp":
+            hp["delayed"] = bool(rng.random() < 0.5)
+        hdrs.append({"rule": variant, "hp": hp, "conn": {"kind": "dense", "M": 1, "N": 1}, "dt": dt, "B": 1,
+                     "reduction": rng.choice(["sum", "mean"]), "dmax": None if nodelay else 2, "delay": 0})
+
+    def delay_of(j, t):
+        if hdrs[j]["dmax"] is None:
+            return None
+        return 0.0 if rule == "k" else rng.randrange(2 * DT + 1) / DT
+
+    def expect(j, xh, yh, t, r, d):
+        dw, near = expected(tab, rule, xh, yh, t, int(round((d or 0) * DT)), r)
+        return [dw] if dyadic else near
+
+    def params(j, factor):
+        return delayadj_params(dict(syn_hp(hdrs[j]["hp"], 0, 0), scale=factor), hdrs[j]["dt"] / DT)
+
+    def on_edge(j, xh, yh, t, r, d):
+        chk.nontrivial.add(("multi", rule, xh[:t + 1], yh[:t + 1], d, r))
+
+    return multi_cells(chk, mm, variant=variant, hdrs=hdrs, via=rng.choice(["ctor", "override"]), T=T, rng=rng,
+                       three=three, dyadic=dyadic, expect=expect, params=params, delay_of=delay_of, guards=guards,
+                       on_edge=on_edge)
+
+
 # ------------------------------------------------------------------ the check
 def run(tier: str, seed: int) -> int:
     chk = Check(PID, tier, seed)
@@ -283,36 +337,49 @@ def run(tier: str, seed: int) -> int:
 
     mm = Mismatch(chk)
     comps = xcomps = 0
+    def pop(variant, shift, T, hp, form, splus, sminus, dt, dyadic):
+        nonlocal comps
+        comps += (2 ** T) ** 2 * T
+        return population(chk, tab, mm, variant=variant, splus=splus, sminus=sminus, dt=dt, dyadic=dyadic,
+                          shift=shift, T=T, rng=rng, hp=hp, form=form, via=rng.choice(["ctor", "override"]))
+
     for k, (splus, sminus) in enumerate(SIGNS):
         shifts = [None, 0, 1, 2, 3, 4] if not quick else [rng.randrange(5), rng.randrange(5)] + ([None] if k == 0 else [])
         for shift in shifts:
             dyadic = rng.random() < 0.4
             dt = rng.choice([1.0, 0.5]) if dyadic else rng.choice([1.0, 1.3, 0.7])
             hp = c18_hp(splus, sminus, dt, rng, dyadic)
+            args = (splus, sminus, dt, dyadic)
             got = {}
             for variant in VARIANTS:
                 rule = SPEC_RULE[variant]
                 if shift is None and rule != "k":
                     continue      # the delay-adjusted rules are defined for connections that have delays
                 T = T3g if rule in ("mw", "md") else Tg
-                res = population(chk, tab, mm, variant=variant, splus=splus, sminus=sminus, dt=dt, dyadic=dyadic,
-                                 shift=shift, T=T, rng=rng, hp=hp)
-                got[variant] = res
-                comps += (2 ** T) ** 2 * T
-            xcomps += cross(chk, mm, got.get("da_stdp"), got.get("dak_stdp"), "DelayAdjustedSTDP~DelayAdjustedKernelSTDP")
-            xcomps += cross(chk, mm, got.get("da_stdpd"), got.get("dak_stdpd"), "DelayAdjustedSTDPD~DelayAdjustedKernelSTDPD")
+                if variant in KERNEL:
+                    # kernel keyword arguments as floats, as (0-d) tensors, and per-synapse tensors
+                    got[variant] = pop(variant, shift, T, hp, "float", *args)
+                    got[variant + ":t"] = pop(variant, shift, T, hp, rng.choice(["t0", "mixed"]), *args)
+                    pop(variant, shift, T, hp, "tsyn", *args)
+                else:
+                    got[variant] = pop(variant, shift, T, hp, rng.choice(["float", "t0"]), *args)
+            for sfx in ("", ":t"):
+                xcomps += cross(chk, mm, got.get("da_stdp"), got.get("dak_stdp" + sfx),
+                                "DelayAdjustedSTDP~DelayAdjustedKernelSTDP" + sfx)
+                xcomps += cross(chk, mm, got.get("da_stdpd"), got.get("dak_stdpd" + sfx),
+                                "DelayAdjustedSTDPD~DelayAdjustedKernelSTDPD" + sfx)
             # all delays zero: the adjusted rules reduce to the unadjusted kernel rule
+            zs = None if shift is None else "zero"
             z = {}
             for variant in ("da_stdp", "dak_stdp", "k_stdp"):
                 if shift is None and variant != "k_stdp":
-                    z[variant] = None
                     continue
-                z[variant] = population(chk, tab, mm, variant=variant, splus=splus, sminus=sminus, dt=dt,
-                                        dyadic=dyadic, shift=None if shift is None else "zero", T=Tg, rng=rng,
-                                        hp=hp)
-                comps += (2 ** Tg) ** 2 * Tg
-            xcomps += cross(chk, mm, z["da_stdp"], z["k_stdp"], "DelayAdjustedSTDP(d=0)~KernelSTDP")
-            xcomps += cross(chk, mm, z["dak_stdp"], z["k_stdp"], "DelayAdjustedKernelSTDP(d=0)~KernelSTDP")
+                z[variant] = pop(variant, zs, Tg, hp, "float", *args)
+                if variant in KERNEL:
+                    z[variant + ":t"] = pop(variant, zs, Tg, hp, rng.choice(["t0", "mixed"]), *args)
+            for a, b in (("da_stdp", "k_stdp"), ("da_stdp", "k_stdp:t"), ("dak_stdp", "k_stdp"),
+                         ("dak_stdp:t", "k_stdp:t"), ("da_stdp", "dak_stdp:t")):
+                xcomps += cross(chk, mm, z.get(a), z.get(b), f"(d=0) {a}~{b}")
     chk.note(f"population replay: {comps} (synapse, step) comparisons with the specification, {xcomps} direct "
              f"cross-implementation comparisons, mismatches={len(mm)}")
     chk.extra["population_comparisons"] = comps
@@ -328,8 +395,19 @@ def run(tier: str, seed: int) -> int:
         e11 += cell_1x1(chk, tab, mm, variant=variant, splus=splus, sminus=sminus,
                         dt=(rng.choice([1.0, 0.5]) if dyadic else rng.choice([1.0, 1.3, 0.7])), dyadic=dyadic,
                         nodelay=rng.random() < 0.2, B=rng.choice([1, 2, 3]), reduction=rng.choice(["sum", "mean"]),
-                        persample=rng.random() < 0.5, T=T, rng=rng)
+                        persample=rng.random() < 0.5, T=T, rng=rng,
+                        form=rng.choice(["float", "t0", "mixed", "tsyn"]), via=rng.choice(["ctor", "override"]))
     chk.note(f"1x1 cells: {n11} runs, {e11} (sample, step) comparisons, mismatches so far={len(mm)}")
+    nmc = 84 if quick else 840
+    emc = 0
+    for j in range(nmc):
+        variant = VARIANTS[j % len(VARIANTS)]
+        emc += cells_on_one_trainer(chk, tab, mm, variant=variant, rng=rng, guards=(j // len(VARIANTS)) % 3 == 0,
+                                    T=T3g if SPEC_RULE[variant] in ("mw", "md") else Tg)
+    chk.note(f"several cells on one trainer (own hyperparameters, cells=..., guards): {nmc} runs, {emc} (cell, step) "
+             f"comparisons, mismatches so far={len(mm)}")
+    e11 += emc
+    chk.traces += nmc
     chk.evaluations += comps + xcomps + e11
     chk.traces += n11
     chk.extra["cell_runs"] = n11
